@@ -16,7 +16,7 @@ From PV Require Import Base.U64 E3.E3_Run.
 Import ListNotations.
 Local Open Scope Z_scope.
 
-Inductive sop : Type := SLock | STry | SUnlock.
+Inductive sop : Type := ALock | ATry | AUnlock.
 
 Definition updn {A : Type} (f : nat -> A) (k : nat) (v : A) : nat -> A :=
   fun i => if Nat.eqb i k then v else f i.
@@ -31,7 +31,7 @@ Section Thr.
     | [] => (None, [])
     | o :: r =>
         match o, ins with
-        | SUnlock, true | SLock, false | STry, false => (Some (entry o), r)
+        | AUnlock, true | ALock, false | ATry, false => (Some (entry o), r)
         | _, _ => next_pc r ins
         end
     end.
@@ -57,7 +57,7 @@ Inductive tpc : Type :=
 | TTryLoad         (* try_lock(): load()                         244 *)
 | TTryXchg         (* try_lock(): exchange(true)                 245 *)
 | TUnl.            (* unlock(): store(false)                     251 *)
-Definition tentry (o : sop) : tpc := match o with SLock => TXchg | STry => TTryLoad | SUnlock => TUnl end.
+Definition tentry (o : sop) : tpc := match o with ALock => TXchg | ATry => TTryLoad | AUnlock => TUnl end.
 Record tas : Type := mkTas { tl_lock : bool; tl_th : nat -> thr tpc }.
 
 Definition tas_step (s : tas) (p : nat) (fl : nat) : tas * obs :=
@@ -89,7 +89,7 @@ Inductive kpc : Type :=
 | KLd (tk : Z)     (* lock(): while (serv.load() != ticket)      1638 *)
 | KUld             (* unlock(): serv.load()                      1649 *)
 | KUst (v : Z).    (* unlock(): serv.store(successor)            1650 *)
-Definition kentry (o : sop) : kpc := match o with SLock => KFa | STry => KFa | SUnlock => KUld end.
+Definition kentry (o : sop) : kpc := match o with ALock => KFa | ATry => KFa | AUnlock => KUld end.
 (* kl_tkt: GHOST ticket owned by a participant from its fetch_add to its store of serv *)
 Record tkl : Type := mkTkl { kl_next : Z; kl_serv : Z; kl_th : nat -> thr kpc; kl_tkt : nat -> option Z }.
 
@@ -112,7 +112,7 @@ Definition tkl_step (s : tkl) (p : nat) (fl : nat) : tkl * obs :=
       (mkTkl (kl_next s) v (updn (kl_th s) p (thr_done kentry t false)) (updn (kl_tkt s) p None), ob_st A_SERV (-1) (wrap v))
   end.
 Definition tkl_fin (s : tkl) (p : nat) : bool := match t_pc (kl_th s p) with None => true | Some _ => false end.
-(* scripts of the ticket lock contain no STry (try_lock is not defined in the library) *)
+(* scripts of the ticket lock contain no ATry (try_lock is not defined in the library) *)
 Definition tkl_init (scr : nat -> list sop) : tkl :=
   mkTkl 0 0 (fun p => thr_init kentry (scr p)) (fun _ => None).
 
@@ -128,7 +128,7 @@ Inductive qpc : Type :=
 | QUstNext (n : nat)   (* unlock(): h->next.store(nullptr)                  1684 *)
 | QUstGot (n : nat)    (* unlock(): next->got_lock.store(true)              1685 *)
 | QUcas.               (* unlock(): CAS(_owner_tail, h, nullptr)            1689 *)
-Definition qentry (o : sop) : qpc := match o with SLock => QXg | STry => QTry | SUnlock => QUld end.
+Definition qentry (o : sop) : qpc := match o with ALock => QXg | ATry => QTry | AUnlock => QUld end.
 (* holder of participant p = (q_next p, q_got p); q_chain: GHOST list of the participants that
    have put their holder into _owner_tail and have not released yet, oldest first *)
 Record qsl : Type := mkQsl {
